@@ -105,12 +105,12 @@ _api_cache = {}
 def api_expected(source, opts, pl=(), pg=(), force=False):
     key = (source, api.opts_key(opts), tuple(pl), tuple(pg), force)
     if key not in _api_cache:
+        if len(_api_cache) > 20000:
+            _api_cache.clear()
         try:
             _api_cache[key] = ('ok', cli.expected_bytes(source, opts, pl, pg, force))
         except BaseException as e:
             _api_cache[key] = ('raises', type(e).__name__)
-        if len(_api_cache) > 20000:
-            _api_cache.clear()
     return _api_cache[key]
 
 
